@@ -15,6 +15,7 @@ def dispatch (line : String) : String :=
     else if cmd = "c19" then Drv.c19 args
     else if cmd = "h1read" then Drv.h1read args
     else if cmd = "h1upgrade" then Drv.h1upgrade args
+    else if cmd = "h1leading" then Drv.h1leading args
     else "bad-cmd"
 
 partial def loop (h : IO.FS.Stream) (out : IO.FS.Stream) : IO Unit := do
